@@ -17,49 +17,49 @@ CHECKS = {
          "Held at every prefix of the wire trace of N seeded executions: outstanding cost <= advertised receive buffer (credits counted only once handed to the sender), payload <= advertised chunk size, credits granted <= cost handed to the granter; dedicated runs fill the window completely (ratio 1.0 must be reached) with starved credit frames, idle receivers, port batches, empty messages and cancelled histories.",
          "trusts: the reference decoder's statement of the wire format; the harness's knowledge of delivery times (it owns the transport)", "DESIGN.md §3 C02", "simnet+wiremon"),
  "C03": ("exploration", "runtime monitoring: pending-operation oracle at virtual-time quiescence of a healthy drained transport + zero-progress frame counter",
-         "Held on N seeded executions: at quiescence (paused clock, all frames released, every receiver consuming) no send/connect is left pending, after histories of cancelled sends (random poll indices, cancel-at-quiescence behind a stalled transport), try_send on full queues, connect(k ports) with left-over credits, and with another port's receiver idle; no operation emitted a PortData frame without ports.",
+         "Held on N seeded executions: at quiescence (paused clock, all frames released, every receiver consuming) no send/connect is left pending, after histories of cancelled sends (random poll indices, cancel-at-quiescence behind a stalled transport), try_send on full queues, connect(k ports) with left-over credits, another port's receiver idle, and receive calls dropped after a few polls while the receiving endpoint's own event queue is full (credit returns waiting for queue space); no operation emitted a PortData frame without ports.",
          "bounded liveness only: 'eventually' is restated as 'by quiescence'; starvation needing more virtual time than a run is not reached", "DESIGN.md §3 C03", "simnet+wiremon+quiescence"),
  "C09": ("exploration", "runtime monitoring: differential conversation between a real endpoint and an independent reference codec (harness as v2/v3 peer), complete (direction x kind x flags x version) cell coverage",
-         "Held on N scripted conversations in which the harness speaks reference-encoded bytes as a version-2 or version-3 peer: every frame the real endpoint emitted decoded strictly and matched what the triggering API action implies, every reference-encoded frame was understood as intended, ids were sent to v3 peers only, and length-prefixed framing held over a fragmenting byte pipe; all 108 (direction, kind, flag set, peer version) cells must be observed or the check fails as broken.",
+         "Held on N scripted conversations in which the harness speaks reference-encoded bytes as a version-2 or version-3 peer: every frame the real endpoint emitted decoded strictly and matched what the triggering API action implies, every reference-encoded frame was understood as intended, ids were sent to v3 peers only, length-prefixed framing held over a fragmenting byte pipe, and two real endpoints with different chunk sizes exchanged values above both chunk sizes over Connect::io; all 108 (direction, kind, flag set, peer version) cells must be observed or the check fails as broken.",
          "trusts: harness/src/refcodec.rs as the frozen statement of the published layout (written from the documentation, not from remoc's encoder)", "DESIGN.md §3 C09", "refcodec+peer"),
  "C06": ("fault_enumeration", "runtime monitoring: exhaustive fault injection (every frame index x direction x fault kind x drop visibility of a recorded workload) on a harness-owned transport, pending-operation registry judged at virtual-time quiescence",
-         "Every (direction, frame index, fault kind, visibility) tuple of the recorded workload was executed: the directly observing dispatcher terminated at the next quiescence, all dispatchers and all tracked API futures completed within 3x(T_A+T_B) virtual seconds, error classes were transport classes, received data stayed a prefix; idle healthy connections survived 1000 timeouts. Exhaustive for the fault space of this workload only.",
+         "Every (direction, frame index, fault kind, visibility) tuple of the recorded workload was executed: (fault kinds: sink error, stream error, end of stream, black hole both ways / one way, writer stalled for ever = back-pressure; odd positions over a transport that buffers until flush) the directly observing dispatcher terminated at the next quiescence, all dispatchers and all tracked API futures completed within 3x(T_A+T_B) virtual seconds, error classes were transport classes, received data stayed a prefix; idle healthy connections (plain and buffering transport, symmetric and asymmetric timeouts) survived 1000 timeouts. Exhaustive for the fault space of this workload only.",
          "fault positions of other workloads are not reached; 'bounded time' = virtual time on tokio's paused clock", "DESIGN.md §3 C06", "simnet fault enumerator"),
  "C07": ("exploration", "runtime monitoring: shutdown oracle at quiescence (dispatcher results, H1 live-task counter, port allocator probe, wire monitor W6) over seeded drop orders; heap/task plateau over open-close cycles",
-         "Held on N seeded executions: after dropping every sender/receiver/connect/request/client/listener of both endpoints in random order (interleaved with network delays and deferral of the drop-notification tasks) both dispatchers returned Ok(()) with the transport open, no internal task survived, all max_ports numbers were allocatable, no port number was reused while open; 500 (quick) / 5000 (thorough) open-transfer-close cycles left heap and task count flat.",
+         "Held on N seeded executions: after dropping every sender/receiver/connect/request/client/listener of both endpoints in random order (interleaved with network delays, deferral of the drop-notification tasks, bursts of concurrent connects above the peer's connect_queue, cancelled accepts under transport back-pressure) both dispatchers returned Ok(()) with the transport open, no internal task survived, all max_ports numbers were allocatable, no port number was reused while open; 500 (quick) / 5000 (thorough) open-transfer-close cycles left heap and task count flat.",
          "internal tasks counted by hook H1; heap by the harness's counting allocator; sampling of drop orders", "DESIGN.md §3 C07", "simnet+wiremon+H1 counter"),
  "C10": ("exploration", "runtime monitoring: outcome-table oracle and tag echo over accepted pairs for seeded concurrent connect/accept/reject/drop/cancel histories; wire monitor W5/W6; sent-ordering probe",
-         "Held on N seeded executions: each tagged port-open request resolved by quiescence with the class the listener's recorded action implies, accepted pairs echoed the right tags on both sides, no request was seen twice, exhaustion errors were truthful, unanswered OpenPort never exceeded the advertised queue, and a request reported as sent was visible to the listener before later data arrived.",
+         "Held on N seeded executions: each tagged port-open request resolved by quiescence with the class the listener's recorded action implies, accepted pairs echoed the right tags on both sides, no request was seen twice, exhaustion errors were truthful, unanswered OpenPort never exceeded the advertised queue, a request reported as sent was visible to the listener before later data arrived, and under local port exhaustion (all ports open, waiting connects, some of them dropped) every freed port resumed one waiting connect.",
          "the configured default Cfg::ports_exhausted is read by no code path of this tree; requests are judged by the wait flag they ran with", "DESIGN.md §3 C10", "simnet+wiremon+history"),
  "C08": ("exploration", "runtime monitoring: grammar-based hostile-peer fuzzing (harness speaks the protocol) with panic hook, pending-operation registry, echo probe and counting-allocator memory oracle",
          "Held on N generated frame sequences (valid prefix + 1-6 hostile steps of 30 kinds, hostile handshakes, hostile stream length prefixes): no panic, every local user saw an error by quiescence whenever the dispatcher terminated, surviving endpoints still served a fresh open+echo, emitted frames stayed decodable, and heap growth between N and 4N flood frames of six classes stayed constant-bounded - except the recorded known finding (zero-port PortData).",
          "peer keeps reading; heap measured at quiescence by a counting allocator; sampling of frame sequences, not all sequences", "DESIGN.md §3 C08", "peer+refcodec+mem"),
  "C04": ("exploration", "runtime monitoring: per-sender history oracle (unique ids, self-describing payloads) over seeded typed-channel workloads with failing/cancelled items, buffered and streamed",
-         "Held on N seeded channel histories over base, mpsc (either half remote, 1-3 senders), lr and oneshot channels: received values were intact, ordered, duplicate-free prefixes of each sender's successful sends (equality at a clean end), failed and cancelled items were never delivered, item failures stayed non-final on base/lr, nothing was pending at quiescence; sizes straddle max_data_size (helper-thread streaming), chunk size and both max_item_size limits.",
+         "Held on N seeded channel histories over base, mpsc (either half remote, 1-3 senders), lr and oneshot channels: received values were intact, ordered, duplicate-free prefixes of each sender's successful sends (equality at a clean end), failed and cancelled items were never delivered, item failures stayed non-final on base/lr, nothing was pending at quiescence, also with receive calls dropped and retried while the receiver's event queue was under back-pressure; sizes straddle max_data_size (helper-thread streaming), chunk size and both max_item_size limits.",
          "encoded size approximated as payload + <48 bytes; mpsc channels may end at an item failure (documented); real helper threads are involved - a stuck run is decided by OS-level quiescence", "DESIGN.md §3 C04", "rig+history"),
  "C13": ("exploration", "runtime monitoring: model-free differential oracle (mirror and hand-applied event stream vs the observable's own contents) over seeded operation sequences of the whole mutating API",
-         "Held on N seeded (collection, operation sequence, subscription point, mode, locality) cases for all five collection types: at quiescence the mirror (local, remote, re-subscribed) and an independent event applier both equalled the collection, with correct done/complete flags - except the recorded known finding (values mutated inside hash_map retain).",
+         "Held on N seeded (collection, operation sequence, subscription point, mode, locality) cases for all five collection types: at quiescence the mirror (local, remote, re-subscribed = mirror of a mirror), an independent event applier and a second applier fed by an incremental subscription whose first receive calls were dropped all equalled the collection, with correct done/complete flags - except the recorded known finding (values mutated inside hash_map retain).",
          "ground truth is the observable's own Deref contents; sampling of sequences", "DESIGN.md §3 C13", "history/differential"),
  "C14": ("exploration", "runtime monitoring: prefix-state membership oracle against a never-lagging reference subscription, error-class table, list exactly-once oracle; lag, early drop, size limit and transport cuts injected",
          "Held on N seeded cases: a mirror that answered Ok at a quiescent checkpoint always presented the current state of the event history; lag, early drop of the collection, an exceeded size limit (through every growing event or the snapshot) and a cut connection were reported with the fitting error and kept being reported; detach() returned a state of the history; list subscribers (1-4, joining any time, slow, local/remote) received every element exactly once in order.",
          "judged at quiescence only; non-applying crafted events are not driven (not reached)", "DESIGN.md §3 C14", "history/differential"),
  "C15": ("exploration", "runtime monitoring: monotone-with-skips and convergence-at-quiescence oracle over recorded observations of every watch receiver",
-         "Held on N seeded runs: every receiver (local, transferred over 1-2 connections while updates were in flight, subscribed late, sender half remote) observed only sent values in non-decreasing order through each observation API, and at quiescence held the last value sent, including one sent immediately before the sender was dropped.",
+         "Held on N seeded runs: every receiver (local, transferred over 1-2 connections while updates were in flight, subscribed late, sender half remote) observed only sent values in non-decreasing order through each observation API, and at quiescence held the last value sent, including one sent immediately before the sender was dropped; values the receiving endpoint could not decode were reported as item errors without ending the channel.",
          "increasing integer values; eventual observation restated as 'by quiescence of the healthy connection'", "DESIGN.md §3 C15", "rig+history"),
  "C16": ("exploration", "runtime monitoring: lag-marker grammar oracle over each broadcast subscriber's recorded Ok/Lagged/Closed sequence",
          "Held on N seeded runs with send/receive buffers 1-4, slow, idle, late and remote subscribers: strictly increasing values, every gap marked by a Lagged error exactly there, no spurious Lagged, draining subscribers saw everything, and every reading subscriber reached the end of the broadcast by quiescence although others never read.",
          "consecutive integer values; 'never block or delay' restated as completion by quiescence", "DESIGN.md §3 C16", "rig+history"),
  "C11": ("exploration", "runtime monitoring: sequence and classification oracle over recorded send/recv/closed histories with the close/drop event enumerated over every stream position",
-         "Every (channel kind, event, stream length, position) tuple for ports, base, lr and mpsc (1-3 senders) was executed under several seeded schedules: sender drop => everything sent then end-of-stream; receiver close => every completed send delivered, end-of-stream, later sends refused and classified as graceful; receiver drop => refused and classified as dropped; closed() futures resolved; mpsc Sending results formed Ok..Ok Err..Err with every Ok delivered.",
-         "positions are enumerated completely for lengths 1,2,4,8; schedules are sampled; bin and oneshot channels are not driven here (oneshot is covered in C04)", "DESIGN.md §3 C11", "rig+history"),
+         "Every (channel kind, event, stream length, position) tuple for ports, forwarded port pairs, base, lr and mpsc (1-3 senders) was executed under several seeded schedules: sender drop => everything sent then end-of-stream; receiver close => every completed send delivered, end-of-stream, later sends refused and classified as graceful; receiver drop => refused and classified as dropped; closed() futures resolved; mpsc Sending results formed Ok..Ok Err..Err with every Ok delivered.",
+         "positions are enumerated completely for lengths 1,2,4,8; schedules are sampled; kinds: port, port pair through a forwarding endpoint (bin channel with both halves sent away), base, lr, mpsc (1-3 senders); oneshot is covered in C04; a drop of the final receiver behind a forwarder is seen as a graceful close by the original sender (recorded, not judged)", "DESIGN.md §3 C11", "rig+history"),
  "C05": ("exploration", "runtime monitoring: label-matrix oracle (value = label*1000+direction must arrive through the counterpart with the same label) over generated value shapes with many channel halves, 1-3 hops",
-         "Held on N generated value journeys (nested lists/options/pairs/maps/variants with 0-12 halves of 11 kinds, re-sent over up to 3 connections, tiny credit configurations in 25%): every received half was wired to exactly its original counterpart (the diagonal of the label matrix), no half was lost, duplicated, cross-wired or left hanging at quiescence; doubly sent single-connection channels produced data or errors, never a hang.",
+         "Held on N generated value journeys (nested lists/options/pairs/maps/variants with 0-12 halves of 11 kinds, re-sent over up to 3 connections, tiny credit configurations in 25%, mpsc receivers handed over with queued items and optionally closed first): every received half was wired to exactly its original counterpart (the diagonal of the label matrix), no half was lost, duplicated, cross-wired or left hanging at quiescence; doubly sent single-connection channels produced data or errors, never a hang.",
          "port exhaustion with wait=true is a wait by design and is not driven; lr halves travel one hop only (documented)", "DESIGN.md §3 C05", "rig+history"),
  "C17": ("exploration", "runtime monitoring: interval-exclusion, no-stale-read and pending-at-quiescence oracles over lock histories recorded on a global logical clock under virtual time",
-         "Held on N seeded concurrent histories (owner + local clones + clones on a second endpoint with own or shared cache, guard hold times, commits and dropped write guards): write guards never overlapped any other guard, values never changed under a read guard, every read returned the initial or a committed value that was not stale, no uncommitted value became visible, the final value was the last commit, and nothing was pending at quiescence once all guards were released.",
-         "single-thread virtual-time leg; logical clock at the client boundary; loss of a lock holder's connection is not driven yet", "DESIGN.md §3 C17", "rig+history"),
+         "Held on N seeded concurrent histories (owner + local clones + clones on a second endpoint with own or shared cache, guard hold times, commits, dropped write guards, commits of values that cannot be transmitted, abandoned requests): write guards never overlapped any other guard, values never changed under a read guard, every read returned the initial or a committed value that was not stale, no uncommitted value became visible, the final value was the last commit, and nothing was pending at quiescence once all guards were released.",
+         "single-thread virtual-time leg; logical clock at the client boundary; requesters that give up (dropped request futures) are driven, loss of a lock holder's connection is not", "DESIGN.md §3 C17", "rig+history"),
  "C12": ("exploration", "runtime monitoring: execution-log and id-echo oracle plus an exact linearizability check (unique-bit updates: chain + real-time order) over recorded call histories",
-         "Held on N seeded histories of concurrent clients (local clones and clones on a second endpoint) against ServerRefMut and ServerSharedMut (spawn off/on): every returned result belonged to its own caller and to exactly one execution, call errors to at most one, the returned values were explained by a sequential order of the mutations respecting real-time order although the &mut method suspends between its read and its write, and acknowledged updates were in the final value.",
+         "Held on N seeded histories of concurrent clients (local clones and clones on a second endpoint; calls left alone un-polled while the same task completes another call) against ServerRefMut and ServerSharedMut (spawn off/on): every returned result belonged to its own caller and to exactly one execution, call errors to at most one, the returned values were explained by a sequential order of the mutations respecting real-time order although the &mut method suspends between its read and its write, and acknowledged updates were in the final value.",
          "virtual-time single-thread leg; every fourth run drives RFn/RFnMut/RFnOnce (unsendable arguments, dropped providers, abandoned calls, connection cuts); connection faults during rtc calls are driven in C19", "DESIGN.md §3 C12 and §8", "rig+history"),
  "C19": ("exploration", "runtime monitoring: execution-log oracle (checkpoints after quiescence and after the caller's drop), served-afterwards probe, failing-call table and watchdog livelock classification over histories with abandoned calls, large replies and cut connections",
          "Held on N seeded histories in which 40% of the calls were abandoned after 0-7 polls and calls to an unknown method / with an oversize reply were injected from a newer-trait client: abandoned cancellable calls stopped at their next suspension point, abandoned #[no_cancel] mutations completed, a fresh &mut call was served afterwards, unknown-method calls failed only themselves, calls with 300-60000 byte replies abandoned mid-transmission and a client whose connection was cut during large replies left the server serving - except the recorded known finding (an oversize reply ends serve()).",
